@@ -353,7 +353,30 @@ def run_impl(case):
     return {"turns": P.run_conversation(case)}
 
 
+def ctx_applicable(case):
+    """The event-level model of the two contexts (`Models/PipelineCtx.lean`, driver op C02.ctx) covers Colang 1.0 with rail flows
+    that stop after they blocked (all generated ones but the `nostop_*` corpus cases)."""
+    return case["ver"] == "1.0" and not case.get("nostop_in") and not case.get("nostop_out")
+
+
+def ctx_request(case):
+    def dialog_fault(t):
+        if not case["dialog"]:
+            return False
+        return bool(t.get("retr_fault")) or (t.get("intent") == "act" and bool(t.get("act_fault")))
+
+    return {
+        "m": "C02.ctx", "drop": False,
+        "in": [[r, P.is_pure(r)] for r in eff_in(case)], "out": [[r, P.is_pure(r)] for r in eff_out(case)],
+        "turns": [{"user": t["user"], "bot": t["bot"], "vin": t.get("vin", []), "vout": t.get("vout", []), "dialog_fault": dialog_fault(t)} for t in case["turns"]],
+    }
+
+
 def model_requests(case, obs, method="C01.conv"):
+    return _conv_requests(case, method) + ([ctx_request(case)] if ctx_applicable(case) else [])
+
+
+def _conv_requests(case, method):
     return [{
         "m": method,
         "ver": case["ver"],
@@ -411,6 +434,31 @@ def compare(case, obs, mouts):
                 return where + f"model exception event {mr['exc']}, implementation {rep['exc']}"
     if len(obs["turns"]) != len(m["turns"]) and not any(o["raised"] for o in obs["turns"]):
         return f"implementation ran {len(obs['turns'])} turns, model {len(m['turns'])}"
+    if len(mouts) > 1:
+        return compare_ctx(case, obs, mouts[1])
+    return None
+
+
+def compare_ctx(case, obs, m):
+    """Event-level model of the two contexts (as-is `slide` / `_process_start_action`) against the recorded ACTION PARAMETERS:
+    the text every rail action was given (context / `text=` parameter; pure rails: the flow's view) and the uttered script."""
+    if "turns" not in m:
+        return f"ctx model answered {m}"
+    for k, (o, mt) in enumerate(zip(obs["turns"], m["turns"])):
+        if o["raised"]:
+            break
+        where = f"turn {k + 1} (two-context model): "
+        for kind, key in (("in", "in_calls"), ("out", "out_calls")):
+            got = [[s[2], s[3]] for s in rail_calls(o, kind)]
+            if got != mt[key]:
+                return where + f"{kind}put rail calls (id, text shown) differ: impl {got} model {mt[key]}"
+        rep = o["reply"]
+        if mt["uttered"] is not None and not rep["exc"] and (rep["role"] != "assistant" or rep["content"] != mt["uttered"]):
+            return where + f"model utters {mt['uttered'][:120]!r}, implementation replied {json.dumps(rep)[:200]}"
+        if mt["user_msg"] is not None:
+            for s in o["steps"]:
+                if s[0] == "llm" and s[1] != "generate_next_steps" and sentinel(mt["user_msg"]) not in s[2]:
+                    return where + f"LLM call {s[1]}: the text of UserMessage in the model ({mt['user_msg'][:60]!r}) is not in the prompt"
     return None
 
 
